@@ -155,6 +155,7 @@ def run(chk, repo, tier):
     run_more(chk, repo)
     run_x5(chk, repo)
     run_x6_x7(chk, repo)
+    run_x8(chk, repo)
 
 
 # names that are fixed on purpose: later transformations look these statements up by name (read and confirmed)
@@ -398,3 +399,33 @@ def run_x6_x7(chk, repo):
                                   witness='CL = (TVCL + THETA(4)*WGT)*EXP(ETA(1)); remove_iiv gives CL = 0')
     if n7 == 0:
         raise AnalysisError('X7: replacement of a whole term by 0 not found in remove_iiv')
+
+
+def run_x8(chk, repo):
+    """remove_iiv rewrites the statement that holds the eta and nothing else: Statements.reassign(symbol, ..) deletes every
+    other assignment of the symbol, so inside a loop over the statements it drops later re-assignments (a covariate effect
+    CL = CL*CLAPGR added after CL = TVCL*exp(ETA))"""
+    X8 = chk.rule('X8', 'parameter_variability: inside a loop over the statements no `reassign(<loop statement>.symbol, ..)` '
+                        '(it removes the other assignments of that symbol)', floor=1)
+    pm = repo.module('pharmpy.modeling.parameter_variability')
+    n = 0
+    for f in pm.functions.values():
+        for L in [x for x in walk_no_nested(f.node) if isinstance(x, ast.For)]:
+            tv = {x.id for x in ast.walk(L.target) if isinstance(x, ast.Name)}
+            over_statements = any(isinstance(x, ast.Name) and x.id in ('sset', 'statements', 'stats', 'sset_old')
+                                  or isinstance(x, ast.Attribute) and x.attr == 'statements' for x in ast.walk(L.iter))
+            if not over_statements:
+                continue
+            n += 1
+            bad = [c for c in ast.walk(L) if isinstance(c, ast.Call) and isinstance(c.func, ast.Attribute)
+                   and c.func.attr == 'reassign' and c.args and isinstance(c.args[0], ast.Attribute)
+                   and c.args[0].attr == 'symbol' and isinstance(c.args[0].value, ast.Name) and c.args[0].value.id in tv]
+            chk.instance(X8, f'{f.name}: loop over `{unparse(L.iter)[:40]}`: reassign of the loop statement\'s symbol: {len(bad)}')
+            for c in bad:
+                chk.violation(X8, pm.rel, f.name, unparse(c)[:100],
+                              'reassign() keeps one assignment of the symbol and deletes all others: a re-assignment further down '
+                              '(covariate effect, allometry) disappears together with the eta', line=c.lineno,
+                              witness='add_covariate_effect(pheno, CL, APGR, exp) then remove_iiv(ETA_CL): CL = TVCL, the effect '
+                                      'of APGR is gone (findings/C09_remove_iiv_keeps_covariate_effect_demo.py)')
+    if n == 0:
+        raise AnalysisError('X8: no loop over the statements found in parameter_variability.py')
